@@ -2330,6 +2330,8 @@ class Tensor(object):
         :return: another tensor
         """
 
+        if len(rep) == 1 and hasattr(rep[0], "__len__"):  # A list, as documented (and as in PyTorch)
+            rep = tuple(rep[0])
         assert len(rep) >= self.dim()
         assert all([r >= 1 for r in rep])
 
